@@ -143,7 +143,13 @@ func c10System(c *sim.Case) {
 					s.viol = fmt.Sprintf("session answered %v only %.2fs after creation and %.2fs after its last use with abs=%v idle=%v", r, t1.Sub(s.cLo).Seconds(), t1.Sub(s.uLo).Seconds(), s.abs, s.idle)
 					s.dead = true
 				case r.OK:
-					s.uLo, s.uHi = t0, t1
+					// a use that certainly fell inside both limits moves the lower bound of "last used"; one inside a
+					// tolerance band was honoured, but whether it still extended the idle limit is the store's business
+					// (read and extension are two commands): only the upper bound moves
+					if must {
+						s.uLo = t0
+					}
+					s.uHi = t1
 					s.sawLive = true
 				default:
 					s.dead = true
